@@ -231,7 +231,8 @@ def C14(ctx):
 def C01(ctx):
     q = ctx.quick
     pipeline_mc(ctx, q)
-    req_campaign(ctx, [("sigmut", 0), ("mut_struct", 0), ("mut_key", 0), ("mut_body", 0), ("mut_uri", 0), ("mut_hdr", 0),
+    mb = 0 if q else 1
+    req_campaign(ctx, [("sigmut", 0), ("mut_struct", 0), ("mut_key", 0), ("mut_body", mb), ("mut_uri", mb), ("mut_hdr", mb),
                        ("s3hash", 0), ("zerokey", 0)]
                  + ([] if q else [("base", 1)]))
     logical_campaign(ctx, 400 if q else 20000)
@@ -310,7 +311,7 @@ def C11(ctx):
     q = ctx.quick
     mc(ctx, "MC_Headers", law_cfg("HvalLaws", "hval", 4 if q else 6), label="HvalLaws")
     fn_campaign(ctx, [("hval", 4 if q else 6)], [("hval", 3000 if q else 100000)])
-    req_campaign(ctx, [("mut_struct", 0), ("mut_hdr", 0), ("spell", 0)] + ([] if q else [("base", 1)]))
+    req_campaign(ctx, [("mut_struct", 0), ("mut_hdr", 0 if q else 1), ("spell", 0)] + ([] if q else [("base", 1)]))
     logical_campaign(ctx, 400 if q else 20000)
     return dict(
         rule="MC: NormValue idempotent, no leading/trailing/double space, non-space bytes preserved in order. E (function): "
